@@ -1,6 +1,520 @@
-//! C20 — stub (not yet implemented; not registered in MANIFEST.json).
-use crate::fw::{CheckDef, Ctx};
+//! C20 — the golden-file helper compares faithfully and only writes when told to.
+//!
+//! Engine: explicit-state search over the reference `RefGolden`
+//!   state K = (golden file: absent | content i, UPDATE_GOLDEN: unset | "" | "1" | "0" | non-UTF-8,
+//!              handle: none | Golden created when the file was absent / had content j)
+//!   actions = set the variable (5), write / delete the file from outside (C+1),
+//!             `Golden::new(path)`, `handle.assert(got)` for each of the C strings.
+//! A case is an edge (history, action) whose action is `new` or `assert`; it is executed by replaying
+//! the history on the REAL `okane_golden::Golden` in a fresh private directory and then performing the
+//! action under observation (panic / no panic, Ok / Err, file bytes, file mtime, directory listing and
+//! directory mtime before and after; file and directory are aged to 2001 first so that any write shows).
+//!  family A: BFS with state de-duplication to the fixpoint (every reachable K x every action)
+//!  family B: every raw action sequence up to a depth bound (history-independence; no de-duplication)
+//!
+//! UPDATE_GOLDEN is process-global: `single_worker: true`, everything runs sequentially.
 
-pub const DEF: CheckDef = CheckDef { id: "C20", run, technique: "stub", rule: "stub", assumptions: &[], shards: 0, hang_s: 20, single_worker: false };
+use std::collections::BTreeMap;
+use std::path::{Path, PathBuf};
+use std::time::{Duration, SystemTime};
 
-fn run(_ctx: &mut Ctx) {}
+use okane_golden::Golden;
+
+use crate::bfs;
+use crate::fw::{self, CheckDef, Ctx, Outcome};
+use crate::oka;
+
+pub const DEF: CheckDef = CheckDef {
+    id: "C20",
+    run,
+    technique: "explicit-state BFS over (golden file content | absent, UPDATE_GOLDEN value, handle snapshot) to the fixpoint plus all raw action sequences up to a depth bound; every edge replays its history on the real okane_golden::Golden in a private directory and observes panic/no panic, Ok/Err, file bytes, mtimes and the directory listing",
+    rule: "case = (history, action) with action in {Golden::new, handle.assert(got)}; states = distinct reference states K reached (family A) resp. distinct histories (family B); transitions = edges executed on the real helper; a case is non-trivial (MUST) when RefGolden fixes the outcome: new Ok/Err, assert panic/no panic, file untouched (bytes + mtime + directory) without a non-empty UPDATE_GOLDEN, file == got exactly with it",
+    assumptions: &[
+        "CRLF normalisation is one left-to-right pass (`\\r\\r\\n` -> `\\r\\n`); contents for which a repeated pass would differ are DON'T-CARE where it matters",
+        "'the golden file's content' is DON'T-CARE between the reading 'as read by Golden::new' and 'as on disk now' whenever the two differ in verdict (file changed, deleted or created after `new`)",
+        "with a non-empty UPDATE_GOLDEN: `new` on a missing file must succeed; `assert` must leave file == got; whether it panics is judged only when got equals the old content and contains no CRLF (every reading agrees it succeeds)",
+        "a non-UTF-8 value of UPDATE_GOLDEN is executed but not judged",
+    ],
+    shards: 1,
+    hang_s: 30,
+    single_worker: true,
+};
+
+const VAR: &str = "UPDATE_GOLDEN";
+
+const CONTENTS: [&str; 12] = ["", "a", "a\n", "a\r\n", "a\r\nb\n", "b", "é\n", "a\r", "\r\n", "a\r\r\n", "日本\r\nb", "a\n\n"];
+
+#[derive(Clone, Copy, PartialEq, Eq, PartialOrd, Ord, Debug)]
+enum Env {
+    Unset,
+    Empty,
+    One,
+    Zero,
+    NonUtf8,
+}
+const ENVS: [Env; 5] = [Env::Unset, Env::Empty, Env::One, Env::Zero, Env::NonUtf8];
+
+#[derive(Clone, Copy, PartialEq, Eq, Debug)]
+enum Mode {
+    NoUpdate,
+    Update,
+    Unknown,
+}
+impl Env {
+    fn mode(self) -> Mode {
+        match self {
+            Env::Unset | Env::Empty => Mode::NoUpdate,
+            Env::One | Env::Zero => Mode::Update,
+            Env::NonUtf8 => Mode::Unknown,
+        }
+    }
+    fn name(self) -> &'static str {
+        match self {
+            Env::Unset => "unset",
+            Env::Empty => "empty",
+            Env::One => "1",
+            Env::Zero => "0",
+            Env::NonUtf8 => "non-utf8",
+        }
+    }
+    fn apply(self) {
+        use std::os::unix::ffi::OsStrExt;
+        match self {
+            Env::Unset => std::env::remove_var(VAR),
+            Env::Empty => std::env::set_var(VAR, ""),
+            Env::One => std::env::set_var(VAR, "1"),
+            Env::Zero => std::env::set_var(VAR, "0"),
+            Env::NonUtf8 => std::env::set_var(VAR, std::ffi::OsStr::from_bytes(&[0xff, b'1'])),
+        }
+    }
+}
+
+/// Reference state K.
+#[derive(Clone, PartialEq, Eq, PartialOrd, Ord, Debug)]
+struct St {
+    /// index into CONTENTS, None = absent
+    file: Option<u8>,
+    env: Env,
+    /// None = no handle; Some(x) = handle created when the file state was x
+    handle: Option<Option<u8>>,
+}
+
+#[derive(Clone, Copy, PartialEq, Eq, Debug)]
+enum Act {
+    SetEnv(Env),
+    Write(u8),
+    Delete,
+    New,
+    Assert(u8),
+}
+
+struct Alphabet {
+    nc: usize,
+    envs: Vec<Env>,
+}
+impl Alphabet {
+    fn nactions(&self) -> usize {
+        self.envs.len() + self.nc + 1 + 1 + self.nc
+    }
+    fn action(&self, i: usize) -> Act {
+        let ne = self.envs.len();
+        if i < ne {
+            Act::SetEnv(self.envs[i])
+        } else if i < ne + self.nc {
+            Act::Write((i - ne) as u8)
+        } else if i == ne + self.nc {
+            Act::Delete
+        } else if i == ne + self.nc + 1 {
+            Act::New
+        } else {
+            Act::Assert((i - ne - self.nc - 2) as u8)
+        }
+    }
+}
+
+fn show_act(a: Act) -> String {
+    match a {
+        Act::SetEnv(Env::Unset) => format!("unset {}", VAR),
+        Act::SetEnv(Env::NonUtf8) => format!("{}=<bytes ff 31>", VAR),
+        Act::SetEnv(e) => format!("{}={:?}", VAR, match e {
+            Env::Empty => "",
+            Env::One => "1",
+            _ => "0",
+        }),
+        Act::Write(c) => format!("write golden file := {:?}", CONTENTS[c as usize]),
+        Act::Delete => "delete golden file".to_string(),
+        Act::New => "g = Golden::new(path)".to_string(),
+        Act::Assert(c) => format!("g.assert({:?})", CONTENTS[c as usize]),
+    }
+}
+
+fn norm1(s: &str) -> String {
+    s.replace("\r\n", "\n")
+}
+fn norm_fix(s: &str) -> String {
+    let mut cur = s.to_string();
+    loop {
+        let n = norm1(&cur);
+        if n == cur {
+            return cur;
+        }
+        cur = n;
+    }
+}
+
+/// RefGolden: successor state if the implementation complies. None = action not enabled / not predictable.
+fn step(st: &St, a: Act) -> Option<St> {
+    let mut n = st.clone();
+    match a {
+        Act::SetEnv(e) => n.env = e,
+        Act::Write(c) => n.file = Some(c),
+        Act::Delete => n.file = None,
+        Act::New => match (st.file, st.env.mode()) {
+            (_, Mode::Unknown) => return None,
+            (Some(c), _) => n.handle = Some(Some(c)),
+            (None, Mode::Update) => n.handle = Some(None),
+            (None, _) => n.handle = None,
+        },
+        Act::Assert(g) => {
+            st.handle?;
+            match st.env.mode() {
+                Mode::Unknown => return None,
+                Mode::Update => n.file = Some(g),
+                Mode::NoUpdate => {}
+            }
+        }
+    }
+    Some(n)
+}
+
+/// Is (state, action) a case (an execution of okane code that the statement talks about)?
+fn is_case(st: &St, a: Act) -> bool {
+    match a {
+        Act::New => true,
+        Act::Assert(_) => st.handle.is_some(),
+        _ => false,
+    }
+}
+
+// ------------------------------------------------------------------------------------------------
+// the real world
+
+struct World {
+    dir: PathBuf,
+    path: PathBuf,
+    handle: Option<Golden>,
+}
+
+#[derive(PartialEq, Eq, Debug, Clone)]
+struct Obs {
+    listing: Vec<String>,
+    bytes: Option<Vec<u8>>,
+    mtime: Option<SystemTime>,
+    dir_mtime: SystemTime,
+}
+
+fn old_time() -> SystemTime {
+    SystemTime::UNIX_EPOCH + Duration::from_secs(978_307_200) // 2001-01-01
+}
+
+impl World {
+    /// one private directory per worker process, emptied before every case
+    fn new(root: &Path, _n: u64) -> World {
+        let dir = root.join("w");
+        std::fs::create_dir_all(&dir).expect("harness bug: cannot create scratch dir");
+        for e in std::fs::read_dir(&dir).expect("harness bug: read_dir") {
+            let p = e.expect("harness bug: dir entry").path();
+            if p.is_dir() {
+                std::fs::remove_dir_all(&p).expect("harness bug: cleanup");
+            } else {
+                std::fs::remove_file(&p).expect("harness bug: cleanup");
+            }
+        }
+        let path = dir.join("golden.txt");
+        World { dir, path, handle: None }
+    }
+    fn observe(&self) -> Obs {
+        let mut listing: Vec<String> = std::fs::read_dir(&self.dir).expect("harness bug: read_dir").map(|e| e.unwrap().file_name().to_string_lossy().to_string()).collect();
+        listing.sort();
+        let bytes = std::fs::read(&self.path).ok();
+        let mtime = std::fs::metadata(&self.path).ok().map(|m| m.modified().unwrap());
+        let dir_mtime = std::fs::metadata(&self.dir).unwrap().modified().unwrap();
+        Obs { listing, bytes, mtime, dir_mtime }
+    }
+    /// make every later write visible: file and directory get an mtime in 2001
+    fn age(&self) {
+        if let Ok(f) = std::fs::OpenOptions::new().write(true).open(&self.path) {
+            f.set_modified(old_time()).expect("harness bug: set_modified(file)");
+        }
+        std::fs::File::open(&self.dir).and_then(|d| d.set_modified(old_time())).expect("harness bug: set_modified(dir)");
+    }
+    /// harness-side actions and un-observed replay of okane actions
+    fn apply(&mut self, a: Act) {
+        match a {
+            Act::SetEnv(e) => e.apply(),
+            Act::Write(c) => std::fs::write(&self.path, CONTENTS[c as usize].as_bytes()).expect("harness bug: write"),
+            Act::Delete => {
+                let _ = std::fs::remove_file(&self.path);
+            }
+            Act::New => {
+                let p = self.path.clone();
+                self.handle = fw::guarded(move || Golden::new(p)).ok().and_then(|r| r.ok());
+            }
+            Act::Assert(g) => {
+                if let Some(h) = &self.handle {
+                    let _ = fw::guarded(|| h.assert(CONTENTS[g as usize]));
+                }
+            }
+        }
+    }
+    /// does the real world look like the reference state?
+    fn matches(&self, st: &St) -> bool {
+        let bytes = std::fs::read(&self.path).ok();
+        let want = st.file.map(|c| CONTENTS[c as usize].as_bytes().to_vec());
+        bytes == want && self.handle.is_some() == st.handle.is_some()
+    }
+}
+impl Drop for World {
+    fn drop(&mut self) {
+        std::env::remove_var(VAR);
+    }
+}
+
+fn touched(before: &Obs, after: &Obs) -> Option<&'static str> {
+    if before.listing != after.listing {
+        if before.bytes.is_none() && after.bytes.is_some() {
+            return Some("golden-file-created");
+        }
+        if before.bytes.is_some() && after.bytes.is_none() {
+            return Some("golden-file-deleted");
+        }
+        return Some("other-directory-entry-created-or-removed");
+    }
+    if before.bytes != after.bytes {
+        return Some("golden-file-content-changed");
+    }
+    if before.mtime != after.mtime {
+        return Some("golden-file-rewritten-with-same-content");
+    }
+    if before.dir_mtime != after.dir_mtime {
+        return Some("directory-modified");
+    }
+    None
+}
+
+fn diff_class(content: &str, got: &str) -> &'static str {
+    if norm_fix(content) == norm_fix(got) {
+        "differs-only-in-line-endings"
+    } else if norm_fix(content).trim_end_matches('\n') == norm_fix(got).trim_end_matches('\n') {
+        "differs-only-in-trailing-newlines"
+    } else {
+        "differs-in-text"
+    }
+}
+
+/// Execute history + action on the real helper and judge the action.
+fn run_edge(root: &Path, serial: u64, init: &St, hist: &[Act], a: Act) -> Outcome {
+    std::env::remove_var(VAR);
+    let mut w = World::new(root, serial);
+    let mut st = init.clone();
+    for h in hist {
+        w.apply(*h);
+        st = match step(&st, *h) {
+            Some(n) => n,
+            None => panic!("harness bug: history contains a disabled action"),
+        };
+        if !w.matches(&st) {
+            return Outcome::dont_care("prefix-diverged-from-reference(judged-at-the-diverging-edge)");
+        }
+    }
+    let envn = st.env.name();
+    let mode = st.env.mode();
+    w.age();
+    let before = w.observe();
+    match a {
+        Act::New => {
+            let p = w.path.clone();
+            let r = match fw::guarded(move || Golden::new(p)) {
+                Ok(r) => r,
+                Err(sig) => return Outcome::violation(format!("new/panicked/{}", sig), "Golden::new panicked"),
+            };
+            let after = w.observe();
+            let t = touched(&before, &after);
+            let present = if st.file.is_some() { "present" } else { "missing" };
+            // result
+            match (st.file, mode, &r) {
+                (Some(_), _, Err(e)) => return Outcome::violation(format!("new/existing-file-rejected/env-{}", envn), format!("the golden file exists and is UTF-8, but Golden::new failed: {}", e)),
+                (None, Mode::NoUpdate, Ok(_)) => return Outcome::violation(format!("new/missing-file-accepted/env-{}", envn), format!("the golden file does not exist and {} is {}, but Golden::new succeeded", VAR, envn)),
+                (None, Mode::Update, Err(e)) => return Outcome::violation(format!("new/missing-file-rejected-in-update-mode/env-{}", envn), format!("{} is set to a non-empty value but Golden::new failed on the missing file: {}", VAR, e)),
+                _ => {}
+            }
+            // side effects
+            match (mode, t) {
+                (Mode::NoUpdate, Some(t)) => Outcome::violation(format!("new/touched-files-without-update/{}/env-{}/file-{}", t, envn, present), format!("{} is {}, yet Golden::new changed the directory: {}", VAR, envn, t)),
+                (Mode::Update, Some(t)) => Outcome::dont_care(format!("new/update-mode/{}", t)),
+                (Mode::Unknown, _) => Outcome::dont_care(format!("new/env-non-utf8/file-{}/{}/{}", present, if r.is_ok() { "ok" } else { "err" }, t.unwrap_or("untouched"))),
+                (_, None) => Outcome::pass(format!("new/{}/env-{}/file-{}/untouched", if r.is_ok() { "ok" } else { "err" }, envn, present)),
+            }
+        }
+        Act::Assert(g) => {
+            let got = CONTENTS[g as usize];
+            let h = w.handle.take().expect("harness bug: assert without handle");
+            let res = fw::guarded(|| h.assert(got));
+            let panicked = res.is_err();
+            let after = w.observe();
+            let t = touched(&before, &after);
+            let snap = st.handle.expect("harness bug: reference has no handle");
+            let pn = if panicked { "panic" } else { "ok" };
+            match mode {
+                Mode::Unknown => Outcome::dont_care(format!("assert/env-non-utf8/{}/{}", pn, t.unwrap_or("untouched"))),
+                Mode::Update => {
+                    if after.bytes.as_deref() != Some(got.as_bytes()) {
+                        let what = match (&before.bytes, &after.bytes) {
+                            (_, None) => "file-missing",
+                            (b, a2) if b == a2 => "file-not-written",
+                            _ => "file-has-other-bytes",
+                        };
+                        return Outcome::violation(
+                            format!("assert/update-mode/{}/env-{}/got-{}", what, envn, if got.contains("\r\n") { "with-crlf" } else if got.is_empty() { "empty" } else { "plain" }),
+                            format!("{} is {:?}-ish (non-empty) and got = {:?}, but afterwards the golden file holds {:?}", VAR, envn, got, after.bytes.as_ref().map(|b| String::from_utf8_lossy(b).to_string())),
+                        );
+                    }
+                    if after.listing != vec!["golden.txt".to_string()] {
+                        return Outcome::dont_care("assert/update-mode/extra-directory-entries");
+                    }
+                    let all_readings_succeed = !got.contains("\r\n") && snap.map(|c| norm1(CONTENTS[c as usize]) == got && norm_fix(CONTENTS[c as usize]) == got).unwrap_or(false);
+                    if all_readings_succeed && panicked {
+                        return Outcome::violation(format!("assert/update-mode/panicked-on-equal-content/env-{}", envn), format!("got = {:?} equals the golden content before and after the update, but assert panicked", got));
+                    }
+                    Outcome::pass(format!("assert/update-mode/env-{}/file==got/{}{}", envn, pn, if all_readings_succeed { "(must)" } else { "(not-judged)" }))
+                }
+                Mode::NoUpdate => {
+                    if let Some(t) = t {
+                        return Outcome::violation(
+                            format!("assert/wrote-without-update/{}/env-{}/{}", t, envn, pn),
+                            format!("{} is {}, yet assert({:?}) changed the directory: {} (before {:?}, after {:?})", VAR, envn, got, t, before.bytes.as_ref().map(|b| String::from_utf8_lossy(b).to_string()), after.bytes.as_ref().map(|b| String::from_utf8_lossy(b).to_string())),
+                        );
+                    }
+                    // expected verdict under both readings of "the golden file's content"
+                    let verdict = |c: Option<u8>| -> Option<bool> {
+                        let c = CONTENTS[c? as usize];
+                        let v1 = norm1(c) == got;
+                        let v2 = norm_fix(c) == got;
+                        if v1 == v2 {
+                            Some(v1)
+                        } else {
+                            None
+                        }
+                    };
+                    let (vs, vf) = (verdict(snap), verdict(st.file));
+                    let fresh = snap == st.file;
+                    let expect = match (vs, vf) {
+                        (Some(x), Some(y)) if x == y => Some(x),
+                        _ => None,
+                    };
+                    match expect {
+                        None => {
+                            let why = if snap.is_none() || st.file.is_none() {
+                                "golden-file-missing-now-or-at-new"
+                            } else if vs.is_none() || vf.is_none() {
+                                "nested-crlf-normalisation"
+                            } else {
+                                "file-changed-since-new"
+                            };
+                            Outcome::dont_care(format!("assert/no-update/{}/{}", why, pn))
+                        }
+                        Some(true) if panicked => {
+                            let c = CONTENTS[snap.unwrap() as usize];
+                            Outcome::violation(format!("assert/rejected-equal-content/env-{}/{}", envn, if c.contains("\r\n") { "content-with-crlf" } else { "content-without-crlf" }), format!("golden content {:?} normalises to got = {:?}, but assert panicked: {}", c, got, res.unwrap_err()))
+                        }
+                        Some(false) if !panicked => {
+                            let c = CONTENTS[snap.unwrap() as usize];
+                            Outcome::violation(format!("assert/accepted-different-content/env-{}/{}", envn, diff_class(&norm1(c), got)), format!("golden content {:?} (normalised {:?}) differs from got = {:?}, but assert succeeded", c, norm1(c), got))
+                        }
+                        Some(eq) => Outcome::pass(format!("assert/no-update/env-{}/{}/{}/untouched", envn, if eq { "equal->ok" } else { "different->panic" }, if fresh { "fresh-handle" } else { "stale-handle-same-verdict" })),
+                    }
+                }
+            }
+        }
+        _ => panic!("harness bug: not a case action"),
+    }
+}
+
+fn describe(init: &St, hist: &[Act], a: Act) -> String {
+    let mut s = format!("start: golden file absent, {} unset, no handle (private directory)\n", VAR);
+    let _ = init;
+    for h in hist {
+        s.push_str(&show_act(*h));
+        s.push('\n');
+    }
+    s.push_str(&format!("JUDGED: {}\n", show_act(a)));
+    s
+}
+
+fn run(ctx: &mut Ctx) {
+    let thorough = ctx.tier == fw::Tier::Thorough;
+    let init = St { file: None, env: Env::Unset, handle: None };
+    let root: PathBuf = oka::scratch_dir("c20");
+    let mut serial = 0u64;
+
+    // family A: BFS to the fixpoint with de-duplication on K
+    let alpha_a = Alphabet { nc: if thorough { CONTENTS.len() } else { 8 }, envs: ENVS.to_vec() };
+    let na = alpha_a.nactions();
+    let mut depth_hist: BTreeMap<usize, u64> = BTreeMap::new();
+    let b = bfs::bfs(
+        init.clone(),
+        64,
+        na,
+        |s, ai| step(s, alpha_a.action(ai)),
+        |hist, s, ai, _succ| {
+            let a = alpha_a.action(ai);
+            if !is_case(s, a) {
+                return;
+            }
+            *depth_hist.entry(hist.len()).or_default() += 1;
+            let hist_a: Vec<Act> = hist.iter().map(|i| alpha_a.action(*i)).collect();
+            serial += 1;
+            let n = serial;
+            ctx.case(|| describe(&init, &hist_a, a), || run_edge(&root, n, &init, &hist_a, a));
+        },
+    );
+    ctx.fact("states", b.states.len() as u64);
+    ctx.fact("bfs_edges", b.edges);
+    ctx.fact("bfs_max_depth", b.max_depth as u64);
+    for (d, n) in &depth_hist {
+        ctx.fact(&format!("family_a_cases_with_history_length_{}", d), *n);
+    }
+    let family_a_cases = serial;
+
+    // family B: all raw sequences (no de-duplication) over the 7-content / 3-value alphabet
+    let alpha_b = Alphabet { nc: if thorough { 7 } else { 5 }, envs: vec![Env::Unset, Env::Empty, Env::One] };
+    let depth_b = if thorough { 5 } else { 4 };
+    let nb = alpha_b.nactions();
+    let mut stack: Vec<(Vec<Act>, St)> = vec![(vec![], init.clone())];
+    // depth-first, deterministic
+    while let Some((hist, st)) = stack.pop() {
+        for ai in 0..nb {
+            let a = alpha_b.action(ai);
+            if is_case(&st, a) {
+                serial += 1;
+                let n = serial;
+                ctx.case(|| describe(&init, &hist, a), || run_edge(&root, n, &init, &hist, a));
+            }
+        }
+        if hist.len() + 1 < depth_b {
+            for ai in (0..nb).rev() {
+                let a = alpha_b.action(ai);
+                if let Some(n) = step(&st, a) {
+                    let mut h = hist.clone();
+                    h.push(a);
+                    stack.push((h, n));
+                }
+            }
+        }
+    }
+    ctx.fact("family_a_cases", family_a_cases);
+    ctx.fact("family_b_cases", serial - family_a_cases);
+    ctx.fact("family_b_depth", depth_b as u64);
+    let _ = std::fs::remove_dir_all(&root);
+    std::env::remove_var(VAR);
+}
